@@ -174,10 +174,10 @@ class Gen:
         if k == 'str':
             name = b[1]
             if name == 'GeneralizedTime':
-                return ('chars', r.choice(['20170801120112Z', '20170801120112.5Z', '201708011201Z', '20170801120112.123Z',
-                                           '19991231235959.999Z', '2017080112Z']))
+                return ('chars', r.choice(['20170801120112Z', '20170801120112.5Z', '20170801120112.123Z',
+                                           '19991231235959.999Z']))
             if name == 'UTCTime':
-                return ('chars', r.choice(['170801120112Z', '1708011201Z', '991231235959Z', '500101000000Z']))
+                return ('chars', r.choice(['170801120112Z', '991231235959Z', '500101000000Z']))
             al = ALPHABET[name]
             return ('chars', ''.join(r.choice(al) for _ in range(r.choice([0, 1, 2, 3, 5, 8, r.randint(0, 12)]))))
         if k == 'any':
